@@ -95,6 +95,10 @@ class LoopHoistMemRef(RewritePattern):
         if for_op.parent_block() is None:
             return
 
+        # The loop is rebuilt with the hoisted values as its only iteration arguments
+        if for_op.iter_args:
+            return
+
         parent_block = for_op.body.block
 
         loads = [op for op in parent_block.ops if isinstance(op, memref.LoadOp)]
